@@ -362,6 +362,7 @@ def run(ctx):
             ctx.report(sig, f'{CL.get(v["inv"], v["inv"])} - stage {h.stage}, history {h.kind}, event '
                             f'{v["reached"]}: {ev}', {'history': h.name, 'event': ev})
     _same_name_outputs(ctx, base, pipe, expect)
+    _stale_output_histories(ctx, base, pipe, expect)
     ctx.sample({'history': owners[0].name, 'events': traces[0]['events'][:12]})
     ctx.part('c2s', histories=len(histories), events=sum(len(t['events']) for t in traces), rejected=rej,
              stages=stage_list)
@@ -379,6 +380,79 @@ def run(ctx):
     ctx.cov['selftest'] = {'corrupted': 3, 'rejected': 3 - acc, 'clauses': [v['inv'] for v in sv]}
     if acc:
         raise MachineryError(f'self-test: {acc} corrupted syscall traces accepted')
+
+
+def _run_jobs_plain(d, jobs):
+    """run stage jobs (dicts) one after the other in fresh interpreters; returns their outputs"""
+    spec = []
+    for i, job in enumerate(jobs):
+        jp, op = d / f'job_{i + 1}.json', d / f'out_{i + 1}.json'
+        job.update(run=i + 1, sentinel_dir=str(d / 'sentinel'), plan=None, trace_dir=str(d / f'hooks_{i + 1}'),
+                   end_token=None, n_jobs=len(jobs))
+        json.dump(job, open(jp, 'w'))
+        spec.append([str(jp), str(op), {}])
+    json.dump({'mode': 'seq', 'jobs': spec}, open(d / 'launch.json', 'w'))
+    env = dict(os.environ)
+    env['PYTHONPATH'] = ROOT + ':' + env.get('PYTHONPATH', '')
+    subprocess.run(['/venv/bin/python', '-W', 'ignore', '-m', 'harness.launch', str(d / 'launch.json')],
+                   env=env, cwd=ROOT, capture_output=True, text=True, timeout=600)
+    return [json.load(open(op)) for _, op, _ in spec]
+
+
+def _stale_output_histories(ctx, base, pipe, expect):
+    """H9 validation of a file that needs no change, requested output = a path with the input's own base
+    name at which an earlier run left a validated file: the state of the output location must be that of a
+    run in a fresh directory.  H10 query-marker selection with search_for_stats_file on a reference-marker
+    file stored away from its statistics file, with a stale same-named statistics file (another taxonomy)
+    next to it: the recorded statistics file exists, so the stale one must not be looked at."""
+    import anndata
+    import h5py
+    # ---- H9
+    vin = ctx.tmpdir('hist_validate_nochange_in_')
+    q = anndata.read_h5ad(base / 'query.h5ad')
+    q.var.index = [f'ENSMUSG{i:011d}' for i in range(q.n_vars)]
+    X = q.X.toarray() if hasattr(q.X, 'toarray') else np.asarray(q.X)
+    anndata.AnnData(X=np.round(X).astype(np.int64), obs=q.obs, var=q.var).write_h5ad(vin / 'query.h5ad')
+    states = {}
+    for kind in ('fresh', 'stale'):
+        d = ctx.tmpdir(f'hist_validate_nochange_{kind}_')
+        for sub in ('scratch', 'out', 'sentinel'):
+            (d / sub).mkdir()
+        o = d / 'out' / 'query.h5ad'
+        if kind == 'stale':
+            shutil.copy(base / 'query.h5ad', o)          # what an earlier run left at the requested path
+        outs = _run_jobs_plain(d, [{'stage': 'validate', 'args': {'h5ad': str(vin / 'query.h5ad'), 'tmp': str(d / 'scratch'),
+                                                                  'valid_path': str(o), 'mapper': {'zz': 'ENSMUSG99999999999'}}}])
+        states[kind] = {'ok': outs[0]['ok'], 'returned': str(outs[0].get('returned')), 'exists': o.exists(),
+                        'scratch': sorted(os.listdir(d / 'scratch')), 'error': outs[0].get('error')}
+    ctx.count({'stage': 'validate', 'kind': 'nochange_stale_output'}, nontrivial=True)
+    a, b = states['fresh'], states['stale']
+    if not a['ok']:
+        raise MachineryError(f'validation of an already valid file failed: {a["error"]}')
+    if (a['ok'], a['exists'], a['scratch']) != (b['ok'], b['exists'], b['scratch']) or \
+            a['returned'].replace('fresh', '') != b['returned'].replace('stale', ''):
+        ctx.report('validate:stale:output-location', f'validation of a file that needs no change: fresh directory -> {a}, '
+                   f'with an earlier output at the requested path -> {b}', {'history': 'validate_nochange_stale_output'})
+    # ---- H10
+    d = ctx.tmpdir('hist_querymarkers_search_')
+    for sub in ('scratch', 'out', 'sentinel', 'elsewhere'):
+        (d / sub).mkdir()
+    shutil.copy(base / 'refm.h5', d / 'elsewhere' / 'refm.h5')
+    # a statistics file of another taxonomy under the recorded file's name, next to the marker file
+    from cell_type_mapper.diff_exp.truncate_precompute import truncate_precomputed_stats_file
+    truncate_precomputed_stats_file(str(base / 'stats.h5'), str(d / 'elsewhere' / 'stats.h5'), ['class'])
+    outs = _run_jobs_plain(d, [{'stage': 'querymarkers', 'args': {'refm': str(d / 'elsewhere' / 'refm.h5'),
+                                                                  'genes': pipe['ref']['genes'], 'tmp': str(d / 'scratch'),
+                                                                  'search': True}}])
+    ctx.count({'stage': 'querymarkers', 'kind': 'search_stale_stats'}, nontrivial=True)
+    o = outs[0]
+    if not o['ok']:
+        ctx.report('querymarkers:stale:run-failed', f'query-marker selection with search_for_stats_file failed: {o["error"]}',
+                   {'history': 'querymarkers_search_stale_stats'})
+    elif o['digest'] != expect['querymarkers']:
+        ctx.report('querymarkers:stale:1920', f'{CL[1920]} (query markers, stale statistics file next to the marker file)',
+                   {'history': 'querymarkers_search_stale_stats'})
+    ctx.part('c2s', stale_output_histories=2)
 
 
 def _same_name_outputs(ctx, base, pipe, expect):
